@@ -27,17 +27,20 @@ Section Main.
   Qed.
 
   (* ---------------------------------------------------------------- parser half, closed *)
-  Theorem parse_reads : forall n k cl o pevs,
+  (* ord: the reading keeps the attribute order (needed when a class has an attribute map) *)
+  Theorem parse_reads : forall ord n k cl o pevs,
+    ord = true \/ nomaps_u u = true ->
     wf_model u cl = true -> fits n cl o = true ->
-    reads (eobj n None o) pevs ->
+    reads_o ord (eobj n None o) pevs ->
     Parser.parse_n k cfg c u (Some cl) pevs = Parser.Ok o [].
   Proof.
-    intros n k cl o pevs Hwf Hfit Hr.
+    intros ord n k cl o pevs Hmu Hwf Hfit Hr.
     pose proof (wf_model_wfr cl Hwf) as Hw.
-    assert (Hr0 : reads (add_xsi_e None (eobj n None o)) pevs) by (rewrite add_xsi_e_none; exact Hr).
+    assert (Hr0 : reads_o ord (add_xsi_e None (eobj n None o)) pevs) by (rewrite add_xsi_e_none; exact Hr).
     assert (Hxq : forall q, xsi_val None = Some q -> ok (PQName q) = true /\ qname_ok q = true)
       by (intros q Hq; discriminate Hq).
-    destruct (all_parse cfg c u ok ign (Parser.replay_n k c u) (Some cl) false conv_law Hnodef n cl o None None Hw Hfit Hxq pevs Hr0)
+    destruct (all_parse cfg c u ok ign (Parser.replay_n k c u) (Some cl) ord conv_law Hnodef Hmu n cl o None None Hw Hfit Hxq
+               ltac:(intros Hx0; exfalso; apply Hx0; reflexivity) pevs Hr0)
       as [attrs [ns [inner [-> [Hxt [Hxn Hrun]]]]]].
     destruct (wfr_inv u cl Hw) as [m [Hm _]].
     assert (Ho : exists fs, o = VObj cl fs).
@@ -63,14 +66,15 @@ Section Main.
   Qed.
 
   (* ---------------------------------------------------------------- the round trip *)
-  Theorem roundtrip_reads : forall n cl o,
+  Theorem roundtrip_reads : forall ord n cl o,
+    ord = true \/ nomaps_u u = true ->
     wf_model u cl = true -> fits n cl o = true ->
     exists evs e,
       EventGen.generate ign c u o = EventGen.Ok evs
       /\ itree_of_events (map (of_wevent c) evs) = Some e
-      /\ forall k pevs, reads e pevs -> Parser.parse_n k cfg c u (Some cl) pevs = Parser.Ok o [].
+      /\ forall k pevs, reads_o ord e pevs -> Parser.parse_n k cfg c u (Some cl) pevs = Parser.Ok o [].
   Proof.
-    intros n cl o Hwf Hfit. pose proof (wf_model_wfr cl Hwf) as Hw.
+    intros ord n cl o Hmu Hwf Hfit. pose proof (wf_model_wfr cl Hwf) as Hw.
     exists (bflat (add_nil_g (cnil u o) (gobj c u ign n None o))), (eobj n None o).
     split; [|split].
     - assert (Ho : exists fs, o = VObj cl fs).
@@ -80,7 +84,7 @@ Section Main.
       apply (run_obj c u ok py_isspace ign n cl _ None None Hw Hfit).
       unfold EventGen.gen_fuel. pose proof (odepth_le_vdepth (VObj cl fs)). lia.
     - apply (events_mean c u ok py_isspace ign n cl o Hw Hfit).
-    - intros k pevs Hr. apply (parse_reads n k cl o pevs Hwf Hfit Hr).
+    - intros k pevs Hr. apply (parse_reads ord n k cl o pevs Hmu Hwf Hfit Hr).
   Qed.
 
   Lemma generate_ok : forall n cl o,
@@ -107,6 +111,6 @@ Section Main.
     intros n cl o Hwf Hfit Hnq Hex. pose proof (wf_model_wfr cl Hwf) as Hw.
     exists (bflat (add_nil_g (cnil u o) (gobj c u ign n None o))). split; [apply (generate_ok n cl o Hwf Hfit)|].
     rewrite (events_mean c u ok py_isspace ign n cl o Hw Hfit). cbn [pump]. unfold Parser.parse.
-    apply (parse_reads n _ cl o _ Hwf Hfit). apply reads_pump. apply (plain_obj c u ok ign n cl o None Hw Hfit Hnq Hex).
+    apply (parse_reads true n _ cl o _ (or_introl eq_refl) Hwf Hfit). apply reads_pump. apply (plain_obj c u ok ign n cl o None Hw Hfit Hnq Hex).
   Qed.
 End Main.
